@@ -325,9 +325,15 @@ def run_unit(unit, workdir, tier):
     cr = classify(GR, resr, reach=True)
     # obligations: explicit clauses + one implicit "body safety" obligation per verified function
     obs = {}
+    ob_span_serves = {}
     for (s, e, t) in G.tags:
         if 'ob' in t:
             obs[t['ob']] = dict(kind=t['kind'], fn=t['fn'], text=' '.join(t.get('text', '').split())[:300])
+            # the function the clause was woven into (several impls may share a function name)
+            for f in G.fn_spans:
+                if f[0] <= s < f[1]:
+                    ob_span_serves[t['ob']] = f[3]
+                    break
     fn_serves = {}
     for f in G.fn_spans:
         fn_serves[f[2]] = f[3]
@@ -335,7 +341,7 @@ def run_unit(unit, workdir, tier):
             obs['%s.%s.body' % (unit, f[2])] = dict(kind='body', fn=f[2],
                                                    text='panic freedom, arithmetic overflow, index/slice bounds, callee preconditions')
     for name, o in obs.items():
-        o['serves'] = fn_serves.get(o['fn'], G.serves)
+        o['serves'] = ob_span_serves.get(name) or fn_serves.get(o['fn'], G.serves)
     # vacuity: every verified function's sentinel must have failed
     vacuous = []
     for (s, e, t) in GR.tags:
